@@ -56,15 +56,15 @@ Proof. vm_compute. split; reflexivity. Qed.
 
 (* ---- tie to the source: the arithmetic of get_band_stats in the current compare.py is that of Stats.Compare.band_stats
         (r2 = pcc^2 with pcc = num / (sqrt a * sqrt b); RMSE = sqrt (res2 / N); rRMSE = RMSE / mean(ref); N = mask_sum) *)
-Theorem C11_source_arithmetic_is_the_model (S : csums) mx my rmse :
+Theorem C11_source_arithmetic_is_the_model (S : csums) :
   let N := cN S in let X := cX S in let Y := cY S in let XY := cXY S in let XX := cXX S in let YY := cYY S in let RR := cRes S in
-  gen_cmp_src_mean N X Y XY XX YY RR mx my rmse == cX S / cN S /\ gen_cmp_ref_mean N X Y XY XX YY RR mx my rmse == cY S / cN S /\
-  gen_cmp_pcc_num N X Y XY XX YY RR mx my rmse == cXY S - cN S * mx * my /\
-  gen_cmp_pcc_den_a N X Y XY XX YY RR mx my rmse == cXX S - cN S * (mx * mx) /\
-  gen_cmp_pcc_den_b N X Y XY XX YY RR mx my rmse == cYY S - cN S * (my * my) /\
-  gen_cmp_rmse_sq N X Y XY XX YY RR mx my rmse == cRes S / cN S /\
-  gen_cmp_rrmse N X Y XY XX YY RR mx my rmse == rmse / my /\ gen_cmp_returns_ok = true.
-Proof. exact (tie_compare S mx my rmse). Qed.
+  let mx := cX S / cN S in let my := cY S / cN S in
+  gen_cmp_pcc_num N X Y XY XX YY RR == cXY S - cN S * mx * my /\
+  gen_cmp_pcc_den_a N X Y XY XX YY RR == cXX S - cN S * (mx * mx) /\
+  gen_cmp_pcc_den_b N X Y XY XX YY RR == cYY S - cN S * (my * my) /\
+  gen_cmp_rmse_sq N X Y XY XX YY RR == cRes S / cN S /\
+  gen_cmp_rrmse_den N X Y XY XX YY RR == my /\ gen_cmp_returns_ok = true.
+Proof. exact (tie_compare S). Qed.
 Print Assumptions C11_source_arithmetic_is_the_model.
 Theorem C11_source_block_sums_are_the_model (b : list px) :
   block_sums b = {| cX := qsum (fun p => gen_cmp_term_src_sum (fst p) (snd p)) b; cY := qsum (fun p => gen_cmp_term_ref_sum (fst p) (snd p)) b;
@@ -73,3 +73,12 @@ Theorem C11_source_block_sums_are_the_model (b : list px) :
                     cRes := qsum (fun p => gen_cmp_term_res2_sum (fst p) (snd p)) b; cN := inject_Z (Z.of_nat (List.length b)) |} /\
   gen_cmp_joint_mask_ok = true /\ gen_cmp_accumulate_ok = true.
 Proof. exact (compare_block_sums_tied b). Qed.
+
+(* ---- tie to the source (gen/Pipeline.v, regenerated on every run by translate/pipeline.py from kernel_model.RefSpaceModel / SrcSpaceModel,
+        fuse._process_block / process, compare.get_block_sums) *)
+From HV Require Import Kernel.Flow Tie.PipelineTie.
+From HVgen Require Import Pipeline.
+(* compare brings the source onto the reference grid (or the reference onto the source grid) with the kernel the resolution rule picks, block by block *)
+Theorem C11_source_reprojection : Pipeline.translation_failed = false /\ gen_compare_reproject_ok = true.
+Proof. destruct (pipeline_tied0 true) as (A & _ & _ & (_ & _ & _ & _ & _ & _ & _ & _ & B)). split; assumption. Qed.
+Print Assumptions C11_source_reprojection.
